@@ -243,7 +243,18 @@ def members_for(tier, r):
     mem += [("rastrigin", (d,)) for d in (list(range(1, 31)) + [50] if full else [1, 2, 3, 5, 12, 30])]
     mem += [("xsquared", (d,)) for d in (list(range(1, 31)) + [50] if full else [1, 2, 4, 7, 30])]
     mem += [("stronginc3", ())]
-    return mem
+    # round-robin over the families (the single-member ones first): a run that is cut short by the deep-search time cap has still
+    # looked at every family
+    groups = {}
+    for fa in mem:
+        groups.setdefault(fa[0], []).append(fa)
+    order = sorted(groups, key=lambda f_: len(groups[f_]))
+    out = []
+    while any(groups.values()):
+        for f_ in order:
+            if groups[f_]:
+                out.append(groups[f_].pop(0))
+    return out
 
 
 def run(tier, r):
